@@ -300,7 +300,12 @@ func (Xmlenc) Run(c *orch.Case) *orch.Outcome {
 			plain = []byte("<x/>") // short, so that a bogus pad length exceeds the data
 		}
 	default:
-		assertionEl = ownSigned(b, w, world.Content("GA1"), true)
+		// the sender may encrypt the assertion's octets exactly as they stand in the Response, i.e. with namespace prefixes
+		// that only the Response declares (the plaintext is then not a self-contained document)
+		// (not under a Response signed with exclusive c14n: the library decodes the canonical form of the Response, in
+		// which the declaration has moved from the root to the children that use it -- see DESIGN.md, observations)
+		selfContained := !((lay.Prefix == 1 || lay.Prefix == 3) && (c.Seed/5)%2 == 1 && !in.Rootsigned)
+		assertionEl = ownSigned(b, w, world.Content("GA1"), selfContained)
 		plain = idp.Serialize(assertionEl, lay, rng)
 	}
 
